@@ -11,6 +11,7 @@ import (
 
 	"pgregory.net/rapid"
 	"rare/pkg/aggregation"
+	"rare/pkg/aggregation/sorting"
 	"rare/pkg/color"
 	"rare/pkg/multiterm"
 	"rare/pkg/multiterm/termrenderers"
@@ -91,27 +92,9 @@ func checkBarsCase(c BarsCase) error {
 		writer.WriteFooter(1, "FOOTER-1")
 
 		// what was asked to be shown, with values from the harness' own fold
-		subs := pbt.SortedKeys(subSet)
-		if got := counter.SubKeys(); strings.Join(got, "\x01") != strings.Join(subs, "\x01") {
-			return fmt.Errorf("harness: sub keys of the aggregator %q differ from the sorted sub keys of the history %q (C07 territory)", got, subs)
-		}
-		var rows []barRow
-		for _, it := range counter.ItemsSorted(sorter) {
-			m, ok := model[it.Name]
-			if !ok {
-				return fmt.Errorf("harness: aggregator has key %q the history does not", it.Name)
-			}
-			r := barRow{key: it.Name}
-			for j, sk := range subs {
-				r.vals = append(r.vals, m[sk])
-				if it.Item.Items()[j] != m[sk] {
-					return fmt.Errorf("harness: aggregator disagrees with the fold of the history for %q/%q: %d vs %d (C07 territory)", it.Name, sk, it.Item.Items()[j], m[sk])
-				}
-			}
-			rows = append(rows, r)
-		}
-		if len(rows) != len(model) {
-			return fmt.Errorf("harness: aggregator lists %d keys, history has %d", len(rows), len(model))
+		rows, subs, err := barsShown(counter, model, subSet, sorter)
+		if err != nil {
+			return err
 		}
 		var rerr error
 		if c.Stacked {
@@ -129,6 +112,34 @@ func checkBarsCase(c BarsCase) error {
 	}
 	writer.Close()
 	return nil
+}
+
+// barsShown: the rows the bargraph loop is asked to show (order: the real
+// sorter's) with the values of the harness' own fold, and the sorted sub keys.
+func barsShown(counter *aggregation.SubKeyCounter, model map[string]map[string]int64, subSet map[string]bool, sorter sorting.NameValueSorter) ([]barRow, []string, error) {
+	subs := pbt.SortedKeys(subSet)
+	if got := counter.SubKeys(); strings.Join(got, "\x01") != strings.Join(subs, "\x01") {
+		return nil, nil, fmt.Errorf("harness: sub keys of the aggregator %q differ from the sorted sub keys of the history %q (C07 territory)", got, subs)
+	}
+	var rows []barRow
+	for _, it := range counter.ItemsSorted(sorter) {
+		m, ok := model[it.Name]
+		if !ok {
+			return nil, nil, fmt.Errorf("harness: aggregator has key %q the history does not", it.Name)
+		}
+		r := barRow{key: it.Name}
+		for j, sk := range subs {
+			r.vals = append(r.vals, m[sk])
+			if it.Item.Items()[j] != m[sk] {
+				return nil, nil, fmt.Errorf("harness: aggregator disagrees with the fold of the history for %q/%q: %d vs %d (C07 territory)", it.Name, sk, it.Item.Items()[j], m[sk])
+			}
+		}
+		rows = append(rows, r)
+	}
+	if len(rows) != len(model) {
+		return nil, nil, fmt.Errorf("harness: aggregator lists %d keys, history has %d", len(rows), len(model))
+	}
+	return rows, subs, nil
 }
 
 type barRow struct {
